@@ -738,6 +738,16 @@ def merkle_facts(ctx):
             conds = {(norm(C.test_expr(b)), lab) for b, lab in g2.control_deps(sn) if C.test_expr(b) is not None}
             if conds in ({("%s < 2" % v, "true")}, {("%s <= 1" % v, "true")}):
                 desc = "least power of two >= value (start 1, double while < value)"      # same function, closed form
+        # 1 << value.bit_length() is the least power of two STRICTLY greater than value: right for every value that is not
+        # a power of two, wrong for 1, 2, 4, ... unless those are answered before (a test of value & (value - 1), or of
+        # the bit count, that guards the return)
+        strict = [r for r in rets2 if isinstance(r.value, ast.BinOp) and ((isinstance(r.value.op, ast.LShift) and fold_int(r.value.left) == 1) or (isinstance(r.value.op, ast.Pow) and fold_int(r.value.left) == 2))
+                  and norm(r.value.right) == "%s.bit_length()" % v]
+        exact_guard = any(isinstance(x, ast.BinOp) and isinstance(x.op, ast.BitAnd) for n in own_nodes(np2.node) if isinstance(n, (ast.If, ast.IfExp)) for x in ast.walk(n.test)) \
+            or any(isinstance(x, ast.Attribute) and x.attr == "bit_count" for x in own_nodes(np2.node))
+        rebinds = any(isinstance(x, ast.Name) and x.id == v and isinstance(x.ctx, ast.Store) for x in own_nodes(np2.node))
+        if desc == "?" and strict and not exact_guard and not rebinds:
+            desc = "1 << bit length of the value: the least power of two STRICTLY greater than it - an exact power of two (1, 2, 4, ...) is doubled"
     out["next_power_2"] = Fact(desc, wl[0] if wl else np2.node, np2)
     return out
 
